@@ -125,6 +125,19 @@ Theorem C12_path_same_partition : forall C (t : tree C) p a,
 Proof. exact same_partition_spec. Qed.
 Print Assumptions C12_path_same_partition.
 
+(* "/" itself is an ancestor of every path (the last one), and ".../x" reaches "/x" whenever every
+   existing ancestor is on the root's device *)
+Theorem C12_path_root_is_an_ancestor : forall p, exists nearer, ancestors p = nearer ++ [[]].
+Proof. exact root_is_an_ancestor. Qed.
+Print Assumptions C12_path_root_is_an_ancestor.
+
+Theorem C12_path_root_on_same_partition : forall C (t : tree C) p d0,
+  dev_of C t [] = Some d0 ->
+  (forall x, In x (ancestors p) -> dev_of C t x = None \/ dev_of C t x = Some d0) ->
+  In [] (ancestors_on_same_partition C t p).
+Proof. exact root_on_same_partition. Qed.
+Print Assumptions C12_path_root_on_same_partition.
+
 Theorem C12_path_tripledots : forall C (t : tree C) cwd target_dir p,
   starts_with s_tripledots p = true ->
   expand_one C t cwd target_dir p =
